@@ -63,6 +63,14 @@ def build(u):
     if ALIAS not in u.source(F).text:
         raise LostAnchor('%s: `%s` not found (Lint must be an alias of error::Error)' % (F, ALIAS))
     u.load_contracts('contracts/u_lint.vc')
+    u.notes += [
+        'assumption: callers keep the Linter idle between declarations (requires of Linter::lint; alpha.rs only uses Linter::default() + lint() + into())',
+        'trusted: derived Clone of lexer::Location and of value_type::ValueType<I> is the identity; #[derive(Default)] of Linter gives no lints / flags off',
+        'hand-written: `pub type Lint = Error;` stands for `pub use crate::alpha::error::Error as Lint;` (presence of the line is checked)',
+        'dropped: #[derive(PartialEq)] of ValueType<I> (never used by linter.rs); impl PartialEq for Identifier is sliced but given no spec (never called)',
+        'contracts of ValueType::min_i128 / max_u128 are copied from contracts/u_vt.vc and re-verified here',
+        'labels inside fn bodies: every body_prefix starts with /*@U*/ so that a failed postcondition is attributed to its own clause',
+    ]
     emit_ast(u)
     u.include('spec/u_lint_spec.rs', kind='spec')
     u.emit(F, 'struct Linter', pub_fields=True)
@@ -76,9 +84,9 @@ def build(u):
         'match self { Some(t) => t.post(l0, l1), None => l1 == l0 }'))
     u.emit(F, 'impl Lintable for Declaration', pre=specs('idle(l)', 'lint_post(l0, l1, exp_d(self))'))
     u.emit(F, 'impl Lintable for FunctionBody', pre=specs('idle(l)', 'lint_post(l0, l1, exp_f(self))'))
-    u.emit(F, 'impl Lintable for Block', pre=specs('true', 'lint_post(l0, l1, exp_b(self, l0.is_naked_branch))'))
+    u.emit(F, 'impl Lintable for Block', pre=specs('true', 'lint_post(l0, l1, exp_b(self, l0.is_naked_branch)) && flags_b(self, l0, l1)'))
     u.emit(F, 'impl Lintable for Statement', pre=specs(
-        'true', 'lint_post(l0, l1, exp_ctx(self, l0.is_naked_branch, l0.is_first_statement_of_branch))'))
+        'true', 'lint_post(l0, l1, exp_ctx(self, l0.is_naked_branch, l0.is_first_statement_of_branch)) && flags_s(self, l0, l1)'))
     u.emit(F, 'impl Lintable for Expression', pre=specs('true', 'expr_post(l0, l1) && l1.lints@ =~= l0.lints@ + trunc_e(self)'))
     u.emit(F, 'impl Lintable for Reference', pre=specs('true', 'expr_post(l0, l1) && l1.lints@ =~= l0.lints@ + trunc_r(self)'))
     u.emit(F, 'impl Lintable for ReferenceStep', pre=specs('true', 'expr_post(l0, l1) && l1.lints@ =~= l0.lints@ + trunc_step(self)'))
